@@ -76,3 +76,25 @@ fn k_chunky_polylinem() {
     assert!(c.pos == n);
     same_words(&chunked, &whole, 20);
 }
+
+/// the 100-byte file header through a destination that accepts 3 bytes per call: byte-identical
+#[kani::proof]
+#[kani::unwind(40)]
+fn k_chunky_header() {
+    let mut h = header::Header::default();
+    h.file_length = kani::any();
+    h.shape_type = ShapeType::PolygonZ;
+    h.bbox.min.x = f64::from_bits(kani::any());
+    h.bbox.max.m = f64::from_bits(kani::any());
+    let mut whole = [0u8; 104];
+    {
+        let mut d: &mut [u8] = &mut whole[..];
+        assert!(h.write_to(&mut d).is_ok());
+        assert!(d.len() == 4);
+    }
+    let mut chunked = [0u8; 104];
+    let mut c = Chunky { buf: &mut chunked[..], pos: 0, k: 3 };
+    assert!(h.write_to(&mut c).is_ok());
+    assert!(c.pos == 100);
+    same_words(&chunked, &whole, 13);
+}
